@@ -733,3 +733,25 @@ ben("c10_record_rebinds_metric", [E(f"{SMx}.record", lambda n: isinstance(n, ast
 _STREAM_GEN = lambda n: isinstance(n, ast.AsyncFunctionDef) and n.name == "generator"  # noqa: E731
 brk("c11_stream_body_takes_named_parameters", [E("mod:context.access", lambda n: isinstance(n, ast.ClassDef) and n.name == "ctx", before("async def _stream_within(scope, source, *args, **kwargs):" + NL + "    async with scope:" + NL + "        async for result in source(*args, **kwargs):" + NL + "            yield result" + NL + NL)), E("context.access.ctx.stream", _STREAM_GEN, PASS), E("context.access.ctx.stream", lambda n: isinstance(n, ast.Return) and "context_snapshot.run" in U(n), to("return context_snapshot.run(_stream_within, streaming_context, source, *args, **kwargs)"))], {"C11": ["C11.10"], "C18": ["C18.1"]})
 _QUOTA = "class _Quota(NamedTuple):" + NL + "    limit: int" + NL + "    period: float" + NL + NL + NL
+
+
+def _hoist_get_into_base(broken: bool):
+    """Move `_SyncCache.__get__` into a new private base class `_Bindable` that `_SyncCache` inherits from."""
+    import re
+
+    def rewrite(src: str) -> str:
+        m = re.search(r"\n    def __get__\(.*?(?=\n    (?:async )?def |\Z)", src, re.S)
+        assert m is not None
+        method = m.group(0)
+        rest = src[: m.start()] + src[m.end() :]
+        if broken:
+            method = re.sub(r"partial\(\s*self\.__method_call__,\s*instance,?\s*\)", "self.__method_call__", method)
+        head = rest.split("\n", 1)[0]
+        new_head = head.replace("]:", "](_Bindable):", 1) if head.rstrip().endswith("]:") else head.replace(":", "(_Bindable):", 1)
+        return "class _Bindable:" + method + "\n\n\n" + new_head + "\n" + rest.split("\n", 1)[1]
+
+    return rewrite
+
+
+ben("c12_get_inherited_from_private_base", [E("mod:helpers.caching", _CACHE_CLS, _hoist_get_into_base(False))], ["C12", "C18"])
+brk("c12_get_inherited_from_private_base_unbound", [E("mod:helpers.caching", _CACHE_CLS, _hoist_get_into_base(True))], {"C12": []})
